@@ -87,6 +87,49 @@ M2 = {
  "C20C": ("C20", "Forwarder.Pause silently drops malformed ids from a batch", "mixed batch with at least one valid and one malformed id ([\"7\",\"05\"])"),
  "C20D": ("C20", "DispatchCountEntry.Validate validates the source id twice, never the destination id", "genesis with a dispatched_counts entry whose CCTP/Hyperlane destination id is not canonical; visible after import at export/query"),
 }
+# round 3: changes steered to code that rounds 1-2 had not touched (focus areas per property)
+M3 = {
+ "C01E": ("C01", "HyperlaneController remembers token ids whose origin-denom check passed (in-memory set) and skips the check for them", "token T (denom X) used by an earlier orbiter packet in the same process; orbiter account holds >= amount of X; packet of denom Y names T"),
+ "C01F": ("C01", "InternalAttributes.Validate compares the recipient with the module address by spelling (same shape as C02C, independently written)", "internal forwarding to the upper-case spelling of the orbiter address"),
+ "C02E": ("C02", "Hyperlane controller forwards DestinationAmount - max_fee when the max fee is in the transferred denom", "Hyperlane payload with a positive max_fee in the transferred denomination"),
+ "C02F": ("C02", "warp-server wrapper (NewHyperlaneHandler) caches Token() answers in process memory", "a token created and used on a discarded branch; the next committed token gets the same id with another denom; orbiter account holds that denom; packet of the first denom names the id"),
+ "C03E": ("C03", "panic guard around ProcessPayload assigns the recovered error to a local variable: a panic below becomes a success acknowledgement", "a panic in a dependency (Hyperlane gas limit ~2^255 with the paymaster hook, before fix 920c189)"),
+ "C03F": ("C03", "router.RouteTo helper returns nil when no route exists; executor uses it", "a pre-action with ACTION_SWAP (valid id, no controller registered)"),
+ "C04E": ("C04", "FeeAttributes.Validate skips the whole entry validation for a recipient seen before", "fee list with a repeated recipient whose later entry is invalid (0 bps, amount 0 or negative)"),
+ "C04F": ("C04", "fee bound checked against the amount left (2*sum >= A) instead of the amount", "valid fee list whose sum is at least half of the amount"),
+ "C05E": ("C05", "same shape as C02E (independently written): Hyperlane amount reduced by a same-denom max fee", "Hyperlane payload with a positive max_fee in the transferred denomination"),
+ "C05F": ("C05", "CCTPAttributes.Validate (pointer receiver) right-pads short mint recipients to 32 bytes", "CCTP payload with a mint_recipient of 1..31 bytes"),
+ "C06E": ("C06", "SetDestinationDenom zeroes the destination amount when the denom changes", "a denomination-changing controller that sets the amount before the denom, or only the denom"),
+ "C06F": ("C06", "dispatchActions wraps the outer (nil) err: a failing action ends the loop with success", "an action that fails at execution (fees >= amount, paused action, blocked recipient)"),
+ "C07E": ("C07", "OnRecvPacket calls ack.Success() on the wrapped application's result for non-orbiter packets too", "wrapped application that acknowledges asynchronously (nil acknowledgement, as packet-forward-middleware does)"),
+ "C07F": ("C07", "memo length guard (32768) before the receiver classification, with a non-sentinel error", "packet not for the orbiter with a memo of more than 32768 bytes"),
+ "C08E": ("C08", "SetUnpausedProtocol also clears every paused counterparty of the protocol", "pause (P,c), pause P, unpause P"),
+ "C08F": ("C08", "PausedCrossChains query rebuilds the page request without the key", "more paused counterparties than the page limit and a request with pagination.key"),
+ "C09E": ("C09", "executor ExportGenesis probes ids with an off-by-one loop bound: the highest action id is never exported", "ACTION_SWAP paused, then export and re-import"),
+ "C09F": ("C09", "id validation removed from the setters and the message server looks the name up in the raw enum map", "MsgPauseAction{ActionId: \"ACTION_UNSUPPORTED\"}: key 0 is stored, the paused-set query and the export fail"),
+ "C10E": ("C10", "RequireAuthority compares decoded bech32 bytes, ignoring the prefix", "signer = the authority's bytes under another prefix (cosmos1..., noblevaloper1...) or in upper case"),
+ "C10F": ("C10", "UnpauseCrossChains limit check uses >= (pause keeps >)", "authority unpauses exactly 100 ids in one message"),
+ "C11E": ("C11", "sweep through SendCoinsFromModuleToAccount to the (bank-blocked) dust collector address", "dust of the transferred denom and the real bank keeper with the dust collector on the blocked list"),
+ "C11F": ("C11", "sweep skipped when the dust equals the transfer coin", "dust of exactly the amount of the incoming transfer"),
+ "C12E": ("C12", "updateDispatchedAmount fast path for untouched transfers sets outgoing = incoming", "a transfer with a fee, later a transfer without fee on the same route and denom"),
+ "C12F": ("C12", "the count is updated before the amounts in UpdateStats", "totals at the 256-bit limit: the amounts update fails (swallowed), the count has already moved"),
+ "C13E": ("C13", "listing responses cut to 100 entries after the SDK built the page", "more than 100 matching entries and an explicit limit above 100"),
+ "C13F": ("C13", "ensureTotal fills Total with the page length when the SDK left it 0", "count_total together with a page key"),
+ "C14E": ("C14", "error wrap in the Hyperlane controller formats hookAddrPtr.String() on a nil pointer", "Hyperlane payload without custom hook whose RemoteTransfer fails (unenrolled domain, unknown token)"),
+ "C14F": ("C14", "dispatchForwarding wraps the outer (nil) err: forwarding errors are logged and dropped", "payload that parses and validates structurally but whose forwarding is refused later (bad attributes, paused, no controller)"),
+ "C15E": ("C15", "distinct-id check with slices.Compact on the unsorted ids (adjacent repeats only)", ">= 3 pre-actions with a non-adjacent repeat ([FEE, SWAP, FEE])"),
+ "C15F": ("C15", "Payload.Validate no longer calls Action.Validate (nil attributes check)", "pre-action without attributes ({\"id\":\"ACTION_FEE\"})"),
+ "C16E": ("C16", "GetICS20PacketData also requires sdk.ValidateDenom: failures become the pass-through sentinel", "orbiter packet whose non-native denom is legal for ICS-20 but not an SDK denom (2-char base, leading digit, > 128 chars)"),
+ "C16F": ("C16", "same shape as C02D (independently written): denom check skipped for synthetic warp tokens", "synthetic warp token (cannot be created in the deployment under test)"),
+ "C17E": ("C17", "forwarder InitGenesis skips paused counterparties whose protocol was just paused", "state with (P,c) and P both paused, export, re-import"),
+ "C17F": ("C17", "adapter genesis validation rejects limits above 32768, UpdateParams does not", "UpdateParams with a limit above 32768, then export"),
+ "C18E": ("C18", "adapter InitGenesis returns early when the params item already exists", "InitGenesis over a store that already holds parameters (not reachable: a chain runs InitGenesis once, on an empty store)"),
+ "C18F": ("C18", "GetParams validates (<= MaxInt32) and returns zero params on failure; UpdateParams does not validate", "UpdateParams with a limit >= 2^31, then any non-empty passthrough"),
+ "C19E": ("C19", "BuildDenomDispatchedAmounts returns a map: the order of the two updates of a swapped transfer follows map iteration", "denomination-changing action and a total near 2^256-1 (one update fails, whether the other was written varies)"),
+ "C19F": ("C19", "oneof guard (fix 4f3e132) only knows the proto names of the members, not the camelCase ones", "FeeInfo with basisPoints (camelCase) and amount both set"),
+ "C20E": ("C20", "HypAttributes.CounterpartyID formats the domain as a signed 32-bit number", "Hyperlane domain >= 2^31"),
+ "C20F": ("C20", "ValidateCounterpartyID validates a TrimSpace'd copy, callers keep the raw string", "counterparty id with leading/trailing white space (\"5 \", \" 5\", \"5\\n\")"),
+}
 def fired(path):
     out, kinds = [], {}
     if os.path.exists(path):
@@ -95,7 +138,7 @@ def fired(path):
             if m and m.group(2) == "1":
                 out.append(m.group(1)); kinds[m.group(1)] = m.group(3).strip()
     return out, kinds
-for mid, (prop, change, needs) in M2.items():
+for mid, (prop, change, needs) in list(M2.items()) + list(M3.items()):
     first, _ = fired(f"/verif/seeded/{mid}/result_first.txt")
     M[mid] = (prop, change, needs, first)
 for mid, (prop, change, needs, first) in sorted(M.items()):
@@ -117,7 +160,7 @@ for mid, (prop, change, needs, first) in sorted(M.items()):
         "written_by": "fresh sub-agent given only the property text and a scratch worktree (nothing from /verif)",
         "confirmed": "tools/verify_mutant.sh in the scratch worktree: git apply ok; go build ./... (root and simapp) ok; go test -vet=off -count=1 ./... passes with the change; demonstration test passes on the clean tree and fails with the change",
         "ran": "tools/run_mutant.sh (git -C /repo apply, bin/check <all 20> quick, git -C /repo checkout -- .)" if mid[-1] in "AB" else "tools/run_mutant_lab.sh: the change applied to a scratch checkout of /repo HEAD wired to a copy of /verif (tools/mutlab.sh), bin/check <all 20> quick there, checkout restored",
-        "round": 1 if mid[-1] in "AB" else 2,
+        "round": {"A": 1, "B": 1, "C": 2, "D": 2}.get(mid[-1], 3),
         "detected_by_first_round": first,
         "detected_by_now": caught,
         "violation_classes_now": kinds,
